@@ -22,7 +22,7 @@ func init() {
 	ev.Register(&ev.Check{
 		ID:             "C18",
 		Level:          "exploration",
-		Rule:           "enum: ALL value lists of <= 3 (thorough 4) items over {1,1.5,\"a\",\"1\",true,null,\"b\"} incl. duplicates x 7 layouts (one line, one per line, // comments, /* */ comments, comment-only lines, blank lines, CRLF): schema `v // {enum: @E}` + rule must give the same verdict as the inline list on 14 probes; duplicate values <=> rule Check fails; Values()/GetAST() list the literals in source order; ONE rule object referenced by two properties and added to a second schema behaves like the inline list and is itself unchanged afterwards. regex: ALL strings <= 4 (5) over {a b . * + ? | ( ) [ ] ^ $ \\ / \"} that regexp.Compile accepts, written /P/ with / escaped: type @T, inline {regex: P} and regexp.MatchString must agree on ALL strings <= 3 over {a,b,/,\",\\}; Example() of the regex type matches P; Len == len(/P/) with trailing text. Non-trivial = distinct (list, layout) or pattern.",
+		Rule:           "enum: ALL value lists of <= 3 (thorough 4) items over {1,1.5,\"a\",\"1\",true,null,\"b\",\"1.5\"} incl. duplicates x 9 layouts (one line, one per line, // comments, /* */ comments, comment-only lines, blank lines, CRLF, empty comments of both forms, comments whose text looks like values): schema `v // {enum: @E}` + rule must give the same verdict as the inline list on 14 probes; duplicate values <=> rule Check fails; Values()/GetAST() list the literals in source order; ONE rule object referenced by two properties and added to a second schema behaves like the inline list and is itself unchanged afterwards. regex: ALL strings <= 4 (5) over {a b . * + ? | ( ) [ ] ^ $ \\ / \"} that regexp.Compile accepts, written /P/ with / escaped: type @T, inline {regex: P} and regexp.MatchString must agree on ALL strings <= 3 over {a,b,/,\",\\}; Example() of the regex type matches P; Len == len(/P/) with trailing text. Non-trivial = distinct (list, layout) or pattern.",
 		Run:            run,
 		Replay:         replay,
 		QuickBudget:    80 * time.Second,
@@ -38,10 +38,10 @@ type caseT struct {
 	Pattern string   `json:"pattern,omitempty"`
 }
 
-var enumAlphabet = []string{"1", "1.5", `"a"`, `"1"`, "true", "null", `"b"`}
+var enumAlphabet = []string{"1", "1.5", `"a"`, `"1"`, "true", "null", `"b"`, `"1.5"`}
 var enumProbes = []string{"1", "1.5", `"a"`, `"1"`, "true", "null", `"b"`, "2", `"A"`, "false", `"1.5"`, "1.50", `""`, `"true"`}
 
-const nLayouts = 7
+const nLayouts = 9
 
 func enumText(items []string, layout int) string {
 	switch layout {
@@ -77,9 +77,30 @@ func enumText(items []string, layout int) string {
 		return "[\n  // head\n  " + strings.Join(items, ",\n  // between\n  ") + "\n  // tail\n]"
 	case 5:
 		return "[\n\n  " + strings.Join(items, ",\n\n  ") + "\n\n]"
+	case 7:
+		// empty comments of both forms, before and behind values
+		return "[ //\n  /**/ " + strings.Join(items, ", //\n  /* */ ") + " /**/ //\n]"
+	case 8:
+		// comments whose text looks like values or like comment openers
+		return "[\n  // 9, \"zz\"\n  " + strings.Join(items, ", /* 8, // */\n  ") + " // ]\n]"
 	default:
 		return "[\r\n  " + strings.Join(items, ",\r\n  ") + "\r\n]"
 	}
+}
+
+// litType: the schema type of a literal of the alphabet.
+func litType(l string) string {
+	switch {
+	case strings.HasPrefix(l, `"`):
+		return "string"
+	case l == "true" || l == "false":
+		return "boolean"
+	case l == "null":
+		return "null"
+	case strings.ContainsAny(l, ".eE"):
+		return "float"
+	}
+	return "integer"
 }
 
 func hasDup(items []string) bool {
@@ -123,6 +144,17 @@ func evalEnum(cs caseT) (string, string) {
 	}
 	if strings.Join(got, "|") != strings.Join(cs.Items, "|") {
 		return "values", fmt.Sprintf("enum rule %q: Values() lists %v, source order is %v", text, got, cs.Items)
+	}
+	// each value carries the schema type of its literal
+	i := 0
+	for _, v := range vals {
+		if v.Type == jlib.SchemaTypeComment {
+			continue
+		}
+		if want := litType(cs.Items[i]); string(v.Type) != want {
+			return "value-type", fmt.Sprintf("enum rule %q: Values() reports %s as %q, it is a %s literal", text, cs.Items[i], v.Type, want)
+		}
+		i++
 	}
 	ast, err := rule.GetAST()
 	if err != nil {
